@@ -148,7 +148,8 @@ func (enc *ttlvWriter) Interval(tag int, interval time.Duration) {
 		panic("interval is too large")
 	}
 	enc.encodeAppend(tag, TypeInterval, 4, func(b []byte) []byte {
-		b = binary.BigEndian.AppendUint32(b, uint32(interval.Seconds()))
+		//nolint:gosec // the range has been checked above
+		b = binary.BigEndian.AppendUint32(b, uint32(interval/time.Second))
 		return append(b, 0, 0, 0, 0)
 	})
 }
